@@ -153,6 +153,18 @@ def relevant(facts, goal, max_rounds=6):
     return [f for (f, _a), c in zip(fa, chosen) if c]
 
 
+_IN_SIMPLIFY = [0]
+
+
+def _needs_simplify(goal):
+    for s_ in subterms(goal):
+        if s_.k == "slice" and s_.a[0].k == "slice":
+            return True
+        if s_.k == "gamma" and s_.a[0].k == "un" and s_.a[0].a[0] == "bool":
+            return True
+    return False
+
+
 def contradictory(facts):
     """syntactic check: some fact and its negation are both present (dead path)"""
     fs = set(facts)
@@ -183,7 +195,7 @@ def in_loop(r):
     return False
 
 
-def prove(facts, goal, max_cases=None):
+def prove(facts, goal, max_cases=None, _lazy=False):
     """entailment with slice-length axioms and relevance filtering.
     -> ('proved'|'refutable'|'unknown', model-or-reason)"""
     if max_cases is not None:
@@ -191,12 +203,39 @@ def prove(facts, goal, max_cases=None):
         old = _lin.MAX_CASES
         _lin.MAX_CASES = max_cases
         try:
-            return prove(facts, goal)
+            return prove(facts, goal, _lazy=_lazy)
         finally:
             _lin.MAX_CASES = old
     facts = [truthy(f) for f in facts]
     if contradictory(facts):
         return "proved", None
+    if not _IN_SIMPLIFY[0] and not _lazy and (_needs_simplify(goal) or any(_needs_simplify(f) for f in facts)):
+        # first try with the goal normalised only; normalise the facts as well only if that does not prove it
+        cache = {}
+        _IN_SIMPLIFY[0] += 1
+        try:
+            g2 = simplify(simplify(goal, facts, cache), facts, cache) if _needs_simplify(goal) else goal
+        finally:
+            _IN_SIMPLIFY[0] -= 1
+        if g2.k == "const":
+            return ("proved", None) if g2.a[0] else ("unknown", "goal simplifies to False")
+        st, m = prove(facts, g2, _lazy=True)
+        if st == "proved" or not any(_needs_simplify(f) for f in facts):
+            return st, m
+        _IN_SIMPLIFY[0] += 1
+        try:
+            f2 = []
+            for f in relevant(facts, g2, max_rounds=3):
+                if _needs_simplify(f):
+                    f = truthy(simplify(simplify(f, facts, cache), facts, cache))
+                    if f.k == "const":
+                        if not f.a[0]:
+                            return "proved", None
+                        continue
+                f2.append(f)
+        finally:
+            _IN_SIMPLIFY[0] -= 1
+        return prove(f2, g2, _lazy=True)
     rel = relevant(facts, goal)
     ax = [slice_axiom(s) for s in _slice_len_atoms(rel + [goal])]
     # axioms may connect further facts
@@ -254,6 +293,21 @@ def read_root(r):
     return None
 
 
+def enclosing_bounds(r):
+    """absolute end positions of the closed slices a read goes through (outermost last)"""
+    out = []
+    q = r["buf"]
+    while q.k == "bcat" and len(q.a[0]) == 1 and q.a[0][0].k == "bytes":
+        q = q.a[0][0].a[0]
+    while q.k == "slice":
+        if not is_const(q.a[2], None):
+            p = buffer_pos(q.a[0], linearize(q.a[2]))
+            if p is not None:
+                out.append(p[1])
+        q = q.a[0]
+    return out
+
+
 def lin_term(l: Lin):
     t = C(l.c)
     for a, v in sorted(l.co.items(), key=lambda kv: show(kv[0])):
@@ -290,12 +344,17 @@ def xbuf_goal(r):
     return None
 
 
-def check_xbuf(ck, it, func, rule="X-BUF", roots=None, skip_funcs=()):
-    """every read on a byte buffer is proven in bounds.  Returns number of reads checked."""
+def check_xbuf(ck, it, func, rule="X-BUF", roots=None, skip_funcs=(), strict_slices=False):
+    """every index / struct.unpack on a byte buffer is proven in bounds (IndexError / struct.error cannot
+    occur).  A slice never raises - Python clamps it - so plain slices are only checked when strict_slices is
+    set; what a clamped slice would mean for the decoded value is the business of the extent rules
+    (W-UNPACK extents, X-DECL, X-IND).  Returns number of reads checked."""
     n = 0
     seen = set()
     for r in it.reads:
         if not is_bytes_buffer(r["buf"]):
+            continue
+        if r["kind"] == "slice" and not strict_slices:
             continue
         if roots is not None:
             rr = read_root(r)
@@ -345,7 +404,16 @@ def check_xdecl(ck, it, func, root, N, rule="X-DECL", extra_facts=(), skip=lambd
         seen.add(key)
         n += 1
         cons = f"read `{r['text'][:70]}` in {r['func']} ends inside the declared length"
-        st, m = prove(list(r["facts"]) + list(extra_facts), g, max_cases=12 if in_loop(r) else None)
+        fs = list(r["facts"]) + list(extra_facts)
+        st, m = prove(fs, g, max_cases=12 if in_loop(r) else None)
+        if st != "proved":
+            # a read through a closed slice cannot reach beyond that slice: it is enough that one enclosing
+            # closed slice ends inside the declared length
+            for bound in enclosing_bounds(r):
+                st2, m2 = prove(fs, binop("<=", lin_term(bound), N), max_cases=12 if in_loop(r) else None)
+                if st2 == "proved":
+                    st, m, hi = st2, m2, lin_term(bound)
+                    break
         if st == "proved":
             ck.proved(rule, func, cons, f"{show(hi)[:80]} <= {show(N)[:60]}")
         elif st == "refutable":
@@ -578,6 +646,10 @@ def simplify(t, facts, _cache=None):
         return proved(binop("and", binop("and", binop(">=", lo, C(0)), binop(">=", hi, lo)), binop("<=", hi, length(b))))
 
     def f(x):
+        if x.k == "slice" and not is_const(x.a[2], None) and linearize(x.a[1]).key() == linearize(x.a[2]).key():
+            return C(b"")      # b[k:k] is empty whatever b is
+        if x.k == "un" and x.a[0] == "bool" and x.a[1].k == "const":
+            return C(bool(x.a[1].a[0]))
         if x.k == "un" and x.a[0] == "len" and x.a[1].k == "slice":
             sl = x.a[1]
             if unclamped(sl):
@@ -598,6 +670,11 @@ def simplify(t, facts, _cache=None):
                 ilen = lin_term(linearize(inner.a[2]) - linearize(a))
                 if proved(binop("and", binop(">=", c, C(0)), binop("<=", d, ilen))):
                     return T("slice", inner.a[0], lin_term(linearize(a) + linearize(c)), lin_term(linearize(a) + linearize(d)), ty="bytes")
+            if unclamped(inner) and not is_const(d, None):
+                ilen = lin_term(linearize(inner.a[2]) - linearize(a))
+                if proved(binop("and", binop(">=", c, C(0)), binop(">=", d, ilen))):
+                    # the outer end lies at or beyond the inner end: Python clamps it there
+                    return T("slice", inner.a[0], lin_term(linearize(a) + linearize(c)), inner.a[2], ty="bytes")
             if unclamped(inner) and is_const(d, None) and proved(binop(">=", c, C(0))):
                 # b[a:e][c:] == b[a+c:e] for an exact inner slice (both empty when a+c > e)
                 return T("slice", inner.a[0], lin_term(linearize(a) + linearize(c)), inner.a[2], ty="bytes")
@@ -623,7 +700,58 @@ def simplify(t, facts, _cache=None):
             return x
         return x
 
-    return mapterm(f, t)
+    memo = cache.setdefault("#memo", {})
+
+    def g(x):
+        r = memo.get(x)
+        if r is None:
+            r = f(x)
+            memo[x] = r
+        return r
+
+    def walk(x):
+        """memoised bottom-up rebuild (terms are DAGs: shared sub-terms are rewritten once)"""
+        if not isinstance(x, T):
+            if isinstance(x, tuple):
+                return tuple(walk(y) for y in x)
+            return x
+        r = memo.get(("w", x))
+        if r is not None:
+            return r
+        if x.k in ("const", "sym", "class", "func", "builtin", "exc", "lit"):
+            r = g(x)
+        else:
+            r = mapterm_shallow(x, walk)
+            r = g(r)
+        memo[("w", x)] = r
+        return r
+
+    return walk(t)
+
+
+def mapterm_shallow(t, rec):
+    """rebuild one node from recursively rewritten children, with the smart constructors"""
+    from .terms import gamma, bcat
+    a = tuple(rec(x) for x in t.a)
+    k = t.k
+    if k == "op":
+        return binop(a[0], a[1], a[2])
+    if k == "un":
+        return un(a[0], a[1])
+    if k == "gamma":
+        return gamma(a[0], a[1], a[2])
+    if k == "bcat":
+        items = []
+        for it_ in a[0]:
+            if it_.k == "bytes" and it_.a[0].k == "bcat":
+                items.extend(it_.a[0].a[0])
+            elif it_.k == "bytes" and it_.a[0].k == "const" and isinstance(it_.a[0].a[0], (bytes, bytearray)):
+                if len(it_.a[0].a[0]):
+                    items.append(T("lit", bytes(it_.a[0].a[0])))
+            else:
+                items.append(it_)
+        return bcat(items)
+    return T(k, *a, ty=t.ty)
 
 
 # ---------------------------------------------------------------------------- concrete realisation of FM counter-models
